@@ -255,6 +255,7 @@ class Engine:
         self.axioms: List[Any] = []       # global assumptions (range constraints of symbolic enums, ...)
         self.inlined: Set[str] = set()
         self.used_externals: Set[str] = set()
+        self.external_values: Dict[str, Any] = {}   # dotted external name -> modelled value
         self._prune_cache: Dict[str, bool] = {}
         # per-path state
         self.pc: List[Any] = []
@@ -367,9 +368,19 @@ class Engine:
         try:
             fr = Frame(self, rel, {}, None)
             try:
-                return fr.eval(node)
+                v = fr.eval(node)
             except (OutsideSubset, RaiseSignal) as e:
                 return Opaque(f"module constant {name}: {e}")
+            # module-level containers are process-global state: tag them so that any mutation is an obligation
+            if type(v) is dict:
+                v = GDict(v)
+            elif type(v) is list:
+                v = GList(v)
+            elif type(v) is set:
+                v = GSet(v)
+            if isinstance(v, (GDict, GList, GSet)):
+                v._frozen_origin = f"{rel}:{name}"
+            return v
         finally:
             self.pc, self.decisions, self.prefix = saved
 
@@ -584,9 +595,42 @@ class Engine:
             return f(self, *args, **kwargs)
         raise OutsideSubset(f"call of unsupported callee {f!r}")
 
+    def enum_members(self, cv: ClassV) -> Optional[Dict[str, ObjV]]:
+        """Members of an Enum class read from its source body (None when cv is not an Enum)."""
+        if "_enum_members" in cv.__dict__:
+            return cv.__dict__["_enum_members"]
+        is_enum = any(isinstance(b, ExternalV) and b.name.split(".")[-1] in ("Enum", "IntEnum", "StrEnum")
+                      for c in cv.mro() for b in c.bases)
+        members: Optional[Dict[str, ObjV]] = None
+        if is_enum and cv.node is not None:
+            members = {}
+            for st in cv.node.body:
+                if isinstance(st, ast.Assign) and len(st.targets) == 1 and isinstance(st.targets[0], ast.Name):
+                    val = Frame(self, cv.rel, {}, None).eval(st.value)
+                    members[st.targets[0].id] = ObjV(cv, {"name": st.targets[0].id, "value": val, "_value_": val})
+        cv.__dict__["_enum_members"] = members
+        return members
+
     def instantiate(self, cls: Any, args: List[Any], kwargs: Dict[str, Any]) -> Any:
         if isinstance(cls, BuiltinClass):
             return ObjV(cls, {}, tuple(args), dict(kwargs))
+        em = self.enum_members(cls) if isinstance(cls, ClassV) else None
+        if em is not None:
+            if len(args) != 1:
+                raise OutsideSubset("enum call")
+            if isinstance(args[0], ObjV) and args[0].cls is cls:
+                return args[0]
+            if is_sym(args[0]) or isinstance(args[0], (SymEnum, Opaque)):
+                ms = list(em.values())
+                conds = [Frame(self, cls.rel, {}, None).equals(args[0], m.attrs["value"]) for m in ms]
+                c = self.choose(len(ms) + 1, conds + [Not(Or(*conds))])
+                if c == len(ms):
+                    raise RaiseSignal(ObjV(builtin_class("ValueError"), {}, (args[0],)))
+                return ms[c]
+            for m in em.values():
+                if m.attrs["value"] == args[0] and type(m.attrs["value"]) is type(args[0]):
+                    return m
+            raise RaiseSignal(ObjV(builtin_class("ValueError"), {}, (args[0],)))
         ok, init = self.class_attr(cls, "__init__")
         obj = ObjV(cls, {}, tuple(args), dict(kwargs))
         if ok and isinstance(init, FuncV) and not self._is_exception_class(cls):
@@ -609,6 +653,9 @@ class Engine:
                     obj.attrs[n] = kwargs[n]
                 elif dflt is not None:
                     obj.attrs[n] = Frame(self, c.rel, {}, None).eval_dataclass_default(dflt)
+            okp, post_init = self.class_attr(cls, "__post_init__")
+            if okp and isinstance(post_init, FuncV):
+                self.call(post_init, [obj], {})
         return obj
 
     def _is_exception_class(self, cls: ClassV) -> bool:
@@ -764,6 +811,8 @@ class Frame:
                     obj = self.eval(t.value)
                     key = self.eval(t.slice)
                     if isinstance(obj, dict) and not is_sym(key):
+                        if getattr(obj, "_frozen_origin", None):
+                            self.eng.oblige(False, f"mutation of module-level state {obj._frozen_origin} (del)")
                         if key not in obj:
                             raise RaiseSignal(ObjV(builtin_class("KeyError"), {}, (key,)))
                         del obj[key]
@@ -879,7 +928,10 @@ class Frame:
             if e.id in ("True", "False", "None"):
                 return {"True": True, "False": False, "None": None}[e.id]
             try:
-                return eng.lookup_global(self.rel, e.id)
+                gv = eng.lookup_global(self.rel, e.id)
+                if isinstance(gv, ExternalV) and gv.name in eng.external_values:
+                    return eng.external_values[gv.name]
+                return gv
             except OutsideSubset:
                 if e.id in eng.externals:
                     return ExternalV(e.id)
@@ -1166,9 +1218,11 @@ class Frame:
                 return False
             return Eq(a, b)
         if isinstance(a, (ClassV, FuncV, ObjV, ModuleV, BuiltinClass)) or isinstance(b, (ClassV, FuncV, ObjV, ModuleV, BuiltinClass)):
-            if isinstance(a, ObjV) and isinstance(b, ObjV) and a is not b:
-                raise OutsideSubset("== on objects")
-            return a is b
+            if isinstance(a, ObjV) and isinstance(a.cls, ClassV) and a is not b:
+                ok, eqf = self.eng.class_attr(a.cls, "__eq__")
+                if ok and isinstance(eqf, FuncV):
+                    return self.truth(self.eng.call(eqf, [a, b], {}))
+            return a is b   # default object identity
         if isinstance(a, (tuple, list)) and isinstance(b, (tuple, list)) and type(a) is type(b):
             if len(a) != len(b):
                 return False
@@ -1329,7 +1383,10 @@ class Frame:
                 return ExternalV(f"{obj.name}.{name}")
             return eng.lookup_global(obj.name, name)
         if isinstance(obj, ExternalV):
-            return ExternalV(f"{obj.name}.{name}")
+            full = f"{obj.name}.{name}"
+            if full in eng.external_values:
+                return eng.external_values[full]
+            return ExternalV(full)
         if isinstance(obj, ObjV):
             if name in obj.attrs:
                 return obj.attrs[name]
@@ -1355,6 +1412,9 @@ class Frame:
             gkey = (obj.rel, f"{obj.name}.{name}")
             if gkey in eng.gstate:
                 return eng.gstate[gkey]
+            em = eng.enum_members(obj)
+            if em is not None and name in em:
+                return em[name]
             ok, v = eng.class_attr(obj, name)
             if not ok:
                 raise RaiseSignal(ObjV(builtin_class("AttributeError"), {}, (name,)))
@@ -1382,6 +1442,8 @@ class Frame:
             return hook(eng, name)
         h = eng.externals.get(f"method:{name}")
         if h is not None:
+            if name in _MUTATORS and getattr(obj, "_frozen_origin", None):
+                eng.oblige(False, f"mutation of module-level state {obj._frozen_origin} (.{name})")
             return BoundV(_native(h), obj)
         raise OutsideSubset(f"attribute {name} of {type(obj).__name__}")
 
@@ -1460,6 +1522,22 @@ class Frame:
 class SuperV:
     cls: Any
     self_value: Any
+
+
+_MUTATORS = {"append", "extend", "add", "update", "discard", "remove", "pop", "setdefault", "clear", "insert",
+             "sort", "reverse", "popitem"}
+
+
+class GDict(dict):  # type: ignore[type-arg]
+    _frozen_origin: Optional[str] = None
+
+
+class GList(list):  # type: ignore[type-arg]
+    _frozen_origin: Optional[str] = None
+
+
+class GSet(set):  # type: ignore[type-arg]
+    _frozen_origin: Optional[str] = None
 
 
 class DictItems:
